@@ -304,7 +304,7 @@ type storeEnv struct {
 	fs    *backends.FileSystemCache
 }
 
-var caseCounter int
+var storesCaseCounter int
 
 func newStoreEnv(req map[string]any) (*storeEnv, error) {
 	setOpTimeout(req)
@@ -312,8 +312,8 @@ func newStoreEnv(req map[string]any) (*storeEnv, error) {
 	if scratch == "" {
 		return nil, fmt.Errorf("scratch directory missing")
 	}
-	caseCounter++
-	dir := filepath.Join(scratch, fmt.Sprintf("case-%d-%d", os.Getpid(), caseCounter))
+	storesCaseCounter++
+	dir := filepath.Join(scratch, fmt.Sprintf("case-%d-%d", os.Getpid(), storesCaseCounter))
 	ws := filepath.Join(dir, "ws")
 	if err := os.MkdirAll(ws, 0755); err != nil {
 		return nil, err
